@@ -285,7 +285,8 @@ every pending result for one operator with a positive allocation) the priority s
 sequence of arrival batches in which the pipelines arriving together are distinct.  With one operator per container nothing is ever suspendable, so the
 proof also shows that the pre-emption machinery stays idle in this mode.  (Multi-operator mode, where `priority` does suspend, is not covered: PARTIAL.) -/
 theorem priority_single_operator_run_never_raises (arrivals : List (List Nat)) (w : World) (st : Prio.St) (res : List Res)
-    (hn : ∀ newP ∈ arrivals, newP.Nodup) (inv : Prio.PRInv w st res) : ∃ out, Prio.loop w st res arrivals = .ok out :=
+    (hn : ∀ newP ∈ arrivals, newP.Nodup) (inv : Prio.PRInv w st res) :
+    ∃ w' st' res', Prio.loop w st res arrivals = .ok (w', st', res') ∧ Prio.PRInv w' st' res' :=
   Prio.run_single_never_raises arrivals w st res hn inv
 
 /-- **one round of `priority` with single-operator containers never raises**: it suspends nothing, every assignment goes through the checked constructor,
